@@ -200,8 +200,9 @@ def s3(ck, an):
     for t in trades:
         st = enclosing_stmt(t)
         name = st.targets[0].id if isinstance(st, ast.Assign) and isinstance(st.targets[0], ast.Name) else None
-        ok = any(name is not None and a.args and isinstance(a.args[0], ast.Name) and a.args[0].id == name and fa.all_paths_from_pass(t, [a]) for a in apps) or \
-            any(a.args and a.args[0] is t for a in apps)
+        tid = fa.sym.canon(t, fa.node_of(t).id)
+        ok = any(a.args and fa.sym.canon(a.args[0], fa.node_of(a).id) == tid and fa.all_paths_from_pass(t, [a]) for a in apps) or \
+            any(a.args and a.args[0] is t for a in apps)       # value ids: the trade may travel through temporaries
         ck.check(ok, "ARGFLOW", "S3.trade-recorded", subj, fa.loc(t), "every trade built is appended to the list returned", "a trade built is not always appended to the returned list", construct=stmt_text(t))
         kw = {k.arg: fa.sym.canon(k.value) for k in t.keywords}
         tn = [e.id for e in loop.target.elts] if isinstance(loop.target, ast.Tuple) else ["?", "?"]
